@@ -117,11 +117,18 @@ func contractPackages(repo, prop string) []string {
 		}
 		if re.Match(b) {
 			out = append(out, "./"+filepath.Base(filepath.Dir(f)))
+			// "//@ -- needs-package ./x": packages that must be loaded with this one
+			// (e.g. the users of a generic type, whose instantiations the contracts name)
+			for _, m := range needsRe.FindAllStringSubmatch(string(b), -1) {
+				out = append(out, m[1])
+			}
 		}
 	}
 	sort.Strings(out)
 	return out
 }
+
+var needsRe = regexp.MustCompile(`needs-package (\./\w+)`)
 
 func hasProp(ps []string, p string) bool {
 	for _, x := range ps {
@@ -276,6 +283,7 @@ func runCheck(repo, verif, prop, tier string, seed int, updateExpected, verbose 
 	var samples []any
 	var stretchList []string
 	seenNames := map[string]bool{}
+	var vacuous []string
 	for _, r := range results {
 		seenNames[stableName(r.Name)] = true
 		solverSecs += r.Seconds
@@ -287,8 +295,7 @@ func runCheck(repo, verif, prop, tier string, seed int, updateExpected, verbose 
 				nCanary++
 			}
 			if r.Status == "vacuous" {
-				// contradictory assumptions: everything else is meaningless
-				return errorExit(prop, "vacuity guard failed: %s is unsatisfiable (contradictory assumptions)", r.Name)
+				vacuous = append(vacuous, r.Name)
 			}
 			if r.Status != "sat-ok" {
 				nVacUnknown++
@@ -319,6 +326,22 @@ func runCheck(repo, verif, prop, tier string, seed int, updateExpected, verbose 
 			continue
 		}
 		viols = append(viols, viol{r: r})
+	}
+	// contradictory assumptions make everything else meaningless - unless
+	// the contradiction comes from a call-site assertion or safety condition
+	// of the same function that FAILED (it is assumed downstream of its
+	// program point): then the failure is the finding and is reported
+	for _, vn := range vacuous {
+		fn := vn[:strings.Index(vn, "/")]
+		explained := false
+		for _, v := range viols {
+			if strings.HasPrefix(v.r.Name, fn+"/") {
+				explained = true
+			}
+		}
+		if !explained {
+			return errorExit(prop, "vacuity guard failed: %s is unsatisfiable (contradictory assumptions)", vn)
+		}
 	}
 	// expected obligations (vacuity guard: nothing silently disappears)
 	expPath := filepath.Join(verif, "expected_obligations.json")
@@ -424,22 +447,22 @@ func runCheck(repo, verif, prop, tier string, seed int, updateExpected, verbose 
 		assumptions = append(assumptions, "not decided by this check: "+pn)
 	}
 	cov := map[string]any{
-		"obligations":              nObl,
-		"discharged":               nDis,
-		"checker_cmd":              fmt.Sprintf("/verif/check %s %s   (= gvc check -tier %s %s; VCs from go/ssa NaiveForm of %s with -tags verif; one SMT-LIB2 query per obligation; portfolio z3 5.1.0 -> z3 4.8.12 -> cvc5 1.0; timeout %ds)", prop, tier, tier, prop, strings.Join(pkgs, ","), timeout),
-		"trusted_base":             sortedKeys(trusted),
-		"functions_under_contract": fnKeys,
-		"ssa_instructions":         nInst,
-		"by_backend":               backend,
-		"solver_seconds":           round3(solverSecs),
-		"vacuity":                  map[string]any{"precondition_covers": nCover, "return_reachable_canaries": nCanary, "undecided_by_solver": nVacUnknown, "note": "a cover/canary query must be satisfiable; unsat aborts the check with ERROR; undecided ones (solver incompleteness on array lambdas) are counted here"},
-		"stretch":                  map[string]any{"attempted": nStretch, "proved": nStretchOK, "list": stretchList, "note": "stretch obligations are attempted and reported but never counted in obligations/discharged and never decide the check"},
-		"known_findings":           knownList,
+		"obligations":               nObl,
+		"discharged":                nDis,
+		"checker_cmd":               fmt.Sprintf("/verif/check %s %s   (= gvc check -tier %s %s; VCs from go/ssa NaiveForm of %s with -tags verif; one SMT-LIB2 query per obligation; portfolio z3 5.1.0 -> z3 4.8.12 -> cvc5 1.0; timeout %ds)", prop, tier, tier, prop, strings.Join(pkgs, ","), timeout),
+		"trusted_base":              sortedKeys(trusted),
+		"functions_under_contract":  fnKeys,
+		"ssa_instructions":          nInst,
+		"by_backend":                backend,
+		"solver_seconds":            round3(solverSecs),
+		"vacuity":                   map[string]any{"precondition_covers": nCover, "return_reachable_canaries": nCanary, "undecided_by_solver": nVacUnknown, "note": "a cover/canary query must be satisfiable; unsat aborts the check with ERROR; undecided ones (solver incompleteness on array lambdas) are counted here"},
+		"stretch":                   map[string]any{"attempted": nStretch, "proved": nStretchOK, "list": stretchList, "note": "stretch obligations are attempted and reported but never counted in obligations/discharged and never decide the check"},
+		"known_findings":            knownList,
 		"known_finding_obligations": nKnown,
-		"samples":                  samples,
+		"samples":                   samples,
 		"expected_obligation_names": len(expected[prop]),
 		"missing_expected":          missing,
-		"contract_files":           e.specFiles,
+		"contract_files":            e.specFiles,
 	}
 	ev := Evidence{PropertyID: prop, Tier: tier, Seed: seed, Level: "proof", Coverage: cov, Assumptions: assumptions, WallS: round3(time.Since(t0).Seconds()), Violations: len(viols) + len(missing)}
 	if !noEvidence {
